@@ -3,6 +3,7 @@ package main
 import (
 	"fmt"
 	"go/token"
+	"go/types"
 	"strings"
 
 	"golang.org/x/tools/go/ssa"
@@ -427,6 +428,66 @@ func c20(r *Report) {
 				r.Decide("path", fmt.Sprintf("(*M/%s.Modifier).ModifyResponse: the multipart buffer becomes the body of a multi-range answer", m.name), pb == nil, "a Body store fed by the buffer's Bytes() lies on every path from Close to the return", "a multi-range request is answered 206 with the original body (or none): the assembled parts are dropped", c.Pos())
 				r.Decide("path", fmt.Sprintf("(*M/%s.Modifier).ModifyResponse: a multi-range answer is announced as multipart/byteranges", m.name), pt == nil, "Content-Type: multipart/byteranges; boundary=... is set on every path from Close to the return", "the multipart body goes out under the file's own Content-Type: the client cannot take the parts apart", c.Pos())
 			}
+			// the boundary the body modifier generates by default is one multipart.Writer accepts
+			// (1 to 70 characters): SetBoundary refuses a longer one silently here, and the
+			// Content-Type then announces a boundary the body does not use
+			if m.name == "body" {
+				if rb := w.Fn("body", "randomBoundary"); rb != nil && rb.Blocks != nil {
+					r.Touch(rb)
+					maxLen, known := 0, false
+					for _, c := range plainCalls(rb, "fmt.Sprintf") {
+						format, isK := constString(c.Call.Args[0])
+						if !isK {
+							continue
+						}
+						known = true
+						ops := concatOperands(c)
+						k := 0
+						for i := 0; i < len(format); i++ {
+							if format[i] != '%' || i+1 >= len(format) {
+								maxLen++
+								continue
+							}
+							verb := format[i+1]
+							i++
+							if verb == '%' {
+								maxLen++
+								continue
+							}
+							if k >= len(ops) {
+								known = false
+								break
+							}
+							op := ops[k]
+							k++
+							switch {
+							case verb == 'x':
+								n := int64(-1)
+								for v := range w.backSlice(op, flowOpt{}) {
+									if a, isA := v.(*ssa.Alloc); isA {
+										if arr, isArr := a.Type().(*types.Pointer).Elem().Underlying().(*types.Array); isArr {
+											n = arr.Len()
+										}
+									}
+								}
+								if n < 0 {
+									known = false
+								}
+								maxLen += int(2 * n)
+							case verb == 's':
+								if s, isS := constString(op); isS {
+									maxLen += len(s)
+								} else {
+									known = false
+								}
+							default:
+								known = false
+							}
+						}
+					}
+					r.Decide("table", "M/body.randomBoundary: the default boundary is at most 70 characters long", known && maxLen >= 1 && maxLen <= 70, fmt.Sprintf("%d characters", maxLen), fmt.Sprintf("the generated boundary has %d characters (or an undeterminable length): multipart.Writer.SetBoundary refuses boundaries over 70, the parts are written with another boundary than the Content-Type announces, and no part of a multi-range answer can be decoded", maxLen), rb.Pos())
+				}
+			}
 			for _, cp := range plainCalls(f, "(*mime/multipart.Writer).CreatePart") {
 				have := map[string]bool{}
 				for _, hc := range plainCalls(f, "(net/textproto.MIMEHeader).Set") {
@@ -473,6 +534,23 @@ func c20(r *Report) {
 						}
 						bad = fa
 					}
+				}
+				// a buffer whose bytes become the body belongs to this answer alone: it is a
+				// variable of this call, not taken from a pool or another holder that gets it
+				// back while the body is still unread
+				for v := range w.backSlice(st.Val, flowOpt{Through: map[string]bool{"io/ioutil.NopCloser": true, "io.NopCloser": true, "bytes.NewReader": true}}) {
+					bc, isC := v.(*ssa.Call)
+					if !isC || calleeName(bc) != "(*bytes.Buffer).Bytes" {
+						continue
+					}
+					own := true
+					for _, l := range resolveAll(bc.Call.Args[0]) {
+						a, isA := l.(*ssa.Alloc)
+						if !isA || a.Parent() != f {
+							own = false
+						}
+					}
+					r.Decide("flow", fmt.Sprintf("(*M/%s.Modifier).ModifyResponse: the buffer behind body assignment #%d is a variable of this call", m.name, n), own, "var buf bytes.Buffer / new(bytes.Buffer) in this function", "the buffer whose bytes are attached as the body comes from a pool (or another shared holder) and goes back there when the function returns: the next multi-range answer overwrites a body that is still being sent", st.Pos())
 				}
 				key := fmt.Sprintf("(*M/%s.Modifier).ModifyResponse: body assignment #%d does not alias modifier-owned scratch storage", m.name, n)
 				if bad != nil {
